@@ -87,6 +87,44 @@ func runC14(r *Run) {
 				}
 			}
 		}
+		// the log has no nonces and the price filter drops a repeated (validator, nonce): every replayed message
+		// of a validator and feeder gets its own nonce -- a per-(validator, feeder) counter bumped per message
+		okNonce := false
+		if fill != nil && len(fill.Args) == 1 {
+			e := stripParens(fill.Args[0])
+			if u, ok := e.(*ast.UnaryExpr); ok {
+				e = u.X
+			}
+			if cl, ok := e.(*ast.CompositeLit); ok {
+				if nv := compositeField(cl, "Nonce"); nv != nil {
+					if ix, isIx := stripParens(nv).(*ast.IndexExpr); isIx {
+						keyOK := false
+						for _, d := range rv.resolveDefs(ix.Index, 0) {
+							ks := exprString(d)
+							if strings.Contains(ks, ".Validator") && strings.Contains(ks, ".FeederID") {
+								keyOK = true
+							}
+						}
+						bumped := false
+						if ml := rv.innermostLoop(fill); ml != nil {
+							ast.Inspect(ml, func(n ast.Node) bool {
+								if inc, isInc := n.(*ast.IncDecStmt); isInc && inc.Tok == token.INC && inc.Pos() < fill.Pos() && exprString(inc.X) == exprString(ix) && !rv.nestedConditionally(inc, ml.(*ast.RangeStmt).Body) {
+									bumped = true
+								}
+								return true
+							})
+						}
+						// the counter outlives the blocks of the window (declared outside the block loop)
+						outlives := false
+						if o := rv.objOf(rootIdent(ix.X)); o != nil && (o.Pos() < loop.Pos() || o.Pos() > loop.End()) {
+							outlives = true
+						}
+						okNonce = keyOK && bumped && outlives
+					}
+				}
+			}
+		}
+		r.check(okNonce, "C14.R1", "replay|distinct-nonces", rv.pos(loop), "each replayed message of a validator and feeder carries its own nonce", "replayed messages do not get distinct nonces per validator and feeder: the price filter drops a validator's second submission of a round on the restarted node, which the running nodes counted")
 		r.check(okFill, "C14.R1", "replay|messages-of-the-block", rv.pos(loop), "the block's logged submissions are re-applied (creator, feeder, prices)", "the replay loop does not FillPrice every logged message of recentMsgs["+cur+"] with its Validator/FeederID/PSources")
 		okSeal := false
 		if seal != nil && top(seal) && len(seal.Args) == 2 && exprString(seal.Args[1]) == "false" {
@@ -409,6 +447,156 @@ func runC14(r *Run) {
 		}
 		r.check(okP, "C14.R4", "params|update-logged", v.pos(v.Decl), "a params update is logged with the params that were stored", "UpdateParams does not AddCache(ItemP(p)) for the p it stored")
 	}
+	// when the window starts right after a validator-set change, the rebuild reproduces that block's force-seal
+	// (prepare the previous block's rounds, seal them all at the change's height) before it prepares anything else
+	{
+		var helper *FnView
+		for _, fv := range w.allViews() {
+			if !strings.HasPrefix(fv.ID(), "x/oracle/keeper.") {
+				continue
+			}
+			for _, c := range fv.CallsNamed("SealRound") {
+				if len(c.Args) == 2 && exprString(c.Args[1]) == "true" {
+					helper = fv
+				}
+			}
+		}
+		okHelper, okSites := false, false
+		if helper != nil {
+			var seal, prep *ast.CallExpr
+			for _, c := range helper.CallsNamed("SealRound") {
+				if len(c.Args) == 2 && exprString(c.Args[1]) == "true" {
+					seal = c
+				}
+			}
+			for _, c := range helper.CallsNamed("PrepareRoundEndBlock") {
+				if seal != nil && c.Pos() < seal.Pos() {
+					prep = c
+				}
+			}
+			if seal != nil && prep != nil && len(prep.Args) == 1 {
+				// SealRound(ctx.WithBlockHeight(h), true) after PrepareRoundEndBlock(h - 1), h a parameter
+				if wc, isC := stripParens(seal.Args[0]).(*ast.CallExpr); isC && helper.calleeName(wc) == "WithBlockHeight" && len(wc.Args) == 1 && isParamOf(helper, wc.Args[0]) {
+					hp := exprString(wc.Args[0])
+					okHelper = sumTerms(stripConv(prep.Args[0])) == "-1+"+hp
+				}
+			}
+			// both arms of the rebuild call it before their first PrepareRoundEndBlock, with the height of the
+			// validator-set change that bounded the window
+			if helper != rv {
+				calls := rv.CallsNamed(helper.Decl.Name.Name)
+				preps := rv.CallsNamed("PrepareRoundEndBlock")
+				nBefore := 0
+				for _, pc := range preps {
+					blk := rv.innermostBlock(pc)
+					for _, hc := range calls {
+						if hc.Pos() < pc.Pos() && blk != nil && blk.Pos() <= hc.Pos() && hc.End() <= blk.End() {
+							nBefore++
+							break
+						}
+					}
+				}
+				fromChange := len(calls) >= 2
+				for _, hc := range calls {
+					last := hc.Args[len(hc.Args)-1]
+					good := false
+					for _, d := range rv.defsOf(rv.objOf(last)) {
+						if strings.Contains(exprString(d), ".Block") {
+							good = true
+						}
+					}
+					if !good {
+						fromChange = false
+					}
+				}
+				okSites = fromChange && nBefore >= 2
+			}
+		}
+		r.check(okHelper, "C14.R1", "replay|force-seal-reproduced", rv.pos(rv.Decl), "the force-seal of a validator-set change is reproduced as the live EndBlock did it: rounds of the previous block prepared, all sealed at the change's height", "no helper of the rebuild calls PrepareRoundEndBlock(h-1) and then SealRound(ctx.WithBlockHeight(h), true)")
+		r.check(okSites, "C14.R1", "replay|force-seal-before-first-prepare", rv.pos(rv.Decl), "both arms of the rebuild reproduce the force-seal before they prepare any round, with the height of the validator-set change", "the rebuild does not reproduce the force-seal of the validator-set change that bounds the window (in both arms, before PrepareRoundEndBlock): a round whose window is still running is re-created open on the restarted node, which accepts submissions the other nodes reject and closes the round twice")
+	}
+	// every params write of the running chain (message handler, token registration) reaches the node's memory
+	// and the RecentParams log in the same step: a store-only write is seen by a restarted node and not by the
+	// nodes that kept running
+	{
+		n := 0
+		for _, fv := range w.allViews() {
+			if !strings.HasPrefix(fv.ID(), "x/oracle/keeper.") || fv.Decl.Name.Name == "SetParams" || fv.Decl.Name.Name == "InitGenesis" {
+				continue
+			}
+			for _, sc := range fv.CallsNamed("SetParams") {
+				fo := fv.callee(sc)
+				if fo == nil || fo.Pkg() == nil || !strings.HasSuffix(fo.Pkg().Path(), "x/oracle/keeper") || len(sc.Args) != 2 {
+					continue
+				}
+				n++
+				blk := fv.innermostBlock(sc)
+				handed := false
+				if blk != nil {
+					for _, c := range allCalls(blk) {
+						if c.Pos() < sc.End() || fv.calleeName(c) != "AddCache" || len(c.Args) != 1 {
+							continue
+						}
+						ip, isCall := stripParens(c.Args[0]).(*ast.CallExpr)
+						if !isCall || !strings.HasSuffix(exprString(ip.Fun), "ItemP") || len(ip.Args) != 1 || !sameExpr(stripDeref(ip.Args[0]), stripDeref(sc.Args[1])) {
+							continue
+						}
+						// conditioned on nothing but "not CheckTx"
+						okCond := true
+						for _, f := range fv.FactsAt(c, false) {
+							if f.At == nil || f.At.Pos() < sc.End() {
+								continue
+							}
+							if o := fv.outcome(f); o != nil && o.Callee.Name() == "IsCheckTx" && !o.Success {
+								continue
+							}
+							if fv.isExpandedAlias(f) {
+								continue // a boolean local; the condition it stands for is judged in its place
+							}
+							okCond = false
+						}
+						if okCond {
+							handed = true
+						}
+					}
+				}
+				r.check(handed, "C14.R4", "params|store-write-reaches-memory|"+fv.ID()+"|"+fv.pos(sc), fv.pos(sc), "the params stored here are handed to the in-memory caches (and so to the RecentParams log) right after", fv.ID()+" stores oracle params at "+fv.pos(sc)+" without AddCache(ItemP(<the same params>)): the running node keeps the old params until the next update while a restarted node loads the new ones from the store")
+			}
+		}
+		if n < 3 {
+			r.bad("C14.R4", "params|store-write-reaches-memory|none", "-", "params writers present", fmt.Sprintf("only %d SetParams call sites found in x/oracle/keeper", n))
+		}
+	}
+	// during the replay the context's params and the package-level mirrors (MaxNonce, thresholds, MaxDetID) change
+	// together: every agc.SetParams(p) of recacheAggregatorContext is followed in the same block by setCommonParams(p)
+	{
+		n, okPair := 0, true
+		var lone []string
+		for _, sc := range rv.CallsNamed("SetParams") {
+			if len(sc.Args) != 1 {
+				continue
+			}
+			n++
+			blk := rv.innermostBlock(sc)
+			paired := false
+			if blk != nil {
+				for _, st := range blk.List {
+					es, isE := st.(*ast.ExprStmt)
+					if !isE || es.Pos() < sc.End() {
+						continue
+					}
+					if c, isC := es.X.(*ast.CallExpr); isC && rv.calleeName(c) == "setCommonParams" && len(c.Args) == 1 && sameExpr(c.Args[0], sc.Args[0]) {
+						paired = true
+					}
+				}
+			}
+			if !paired {
+				okPair = false
+				lone = append(lone, rv.pos(sc))
+			}
+		}
+		r.check(okPair && n >= 3, "C14.R2", "restore|params-and-mirrors-together", rv.pos(rv.Decl), "whenever the replay puts params in force it also restores the package-level mirrors from them", "agc.SetParams at "+strings.Join(lone, ", ")+" is not followed by setCommonParams with the same params: the replayed blocks run SealRound/newWorker/ExceedsThreshold on the process defaults (MaxNonce 3, 2/3, MaxDetID 5) instead of the stored values")
+	}
 	// ---- R5
 	for _, kind := range []struct{ fn, rm, set string }{{"cacheMsgs.commit", "RemoveRecentMsg", "SetIndexRecentMsg"}, {"cacheParams.commit", "RemoveRecentParams", "SetIndexRecentParams"}} {
 		v := w.View(cache, kind.fn)
@@ -670,6 +858,17 @@ func stripConvDeep(e ast.Expr) ast.Expr {
 		if id, ok := x.Fun.(*ast.Ident); ok && len(x.Args) == 1 && (id.Name == "int64" || id.Name == "uint64" || id.Name == "int" || id.Name == "uint32" || id.Name == "int32") {
 			return stripConvDeep(x.Args[0])
 		}
+	}
+	return e
+}
+
+func stripDeref(e ast.Expr) ast.Expr {
+	e = stripParens(e)
+	if st, ok := e.(*ast.StarExpr); ok {
+		return stripParens(st.X)
+	}
+	if u, ok := e.(*ast.UnaryExpr); ok && u.Op == token.AND {
+		return stripParens(u.X)
 	}
 	return e
 }
